@@ -280,3 +280,40 @@ func derives(v ssa.Value, src func(ssa.Value) bool, seen map[ssa.Value]bool, d i
 	}
 	return false
 }
+
+// DerivesFromNoCall is DerivesFrom that does not look through call results
+// (a call such as slices.Clone or maps.Clone produces a fresh value).
+func DerivesFromNoCall(v ssa.Value, src func(ssa.Value) bool) bool {
+	return derivesNC(v, src, map[ssa.Value]bool{}, 0)
+}
+
+func derivesNC(v ssa.Value, src func(ssa.Value) bool, seen map[ssa.Value]bool, d int) bool {
+	if v == nil || seen[v] || d > 30 {
+		return false
+	}
+	seen[v] = true
+	if src(v) {
+		return true
+	}
+	switch x := v.(type) {
+	case *ssa.Phi:
+		for _, e := range x.Edges {
+			if derivesNC(e, src, seen, d+1) {
+				return true
+			}
+		}
+	case *ssa.UnOp:
+		return derivesNC(x.X, src, seen, d+1)
+	case *ssa.Slice:
+		return derivesNC(x.X, src, seen, d+1)
+	case *ssa.ChangeType:
+		return derivesNC(x.X, src, seen, d+1)
+	case *ssa.Convert:
+		return derivesNC(x.X, src, seen, d+1)
+	case *ssa.Extract:
+		return derivesNC(x.Tuple, src, seen, d+1)
+	case *ssa.FieldAddr:
+		return false
+	}
+	return false
+}
